@@ -495,6 +495,68 @@ type Wp = palette::white_point::D65;
 
 const U: (f64, f64) = (0.0, 1.0);
 const HUE: (f64, f64) = (0.0, 360.0);
+// ------------------------------------------------------------------------------------------
+/// clamp: by-value, assigning, slice and Alpha-wrapped forms on colours whose components are independently far below, just
+/// below, inside, just above and far above their ranges (every sign pattern) agree bit for bit
+fn clamp_suite<T: Fl, C>(m: &mut Monitor, ctx: &Ctx, d: &Desc)
+where
+    C: C3<T> + Clamp + ClampAssign,
+    Alpha<C, T>: Clamp + ClampAssign + Clone,
+    [C]: ClampAssign,
+{
+    let inst = format!("{}/{}", d.name, T::NAME);
+    let mut rng = ctx.rng(&format!("clamp{}", inst), 0);
+    let mut w = W { m, inst };
+    let n = ctx.n(3000, 300_000);
+    for q in 0..n {
+        let mut v = [0.0; 3];
+        // the first 125 cases enumerate the 5^3 class patterns, the rest are seeded
+        let mut pat = q;
+        for k in 0..3 {
+            let (lo, hi) = if d.hue == Some(k) { (0.0, 360.0) } else { d.ranges[k] };
+            let span = hi - lo;
+            let class = if q < 125 { let c = pat % 5; pat /= 5; c } else { rng.below(5) };
+            v[k] = match class {
+                0 => lo - span * rng.range(0.5, 3.0),
+                1 => lo - span * 1e-6,
+                2 => lo + span * rng.unit(),
+                3 => hi + span * 1e-6,
+                _ => hi + span * rng.range(0.5, 3.0),
+            };
+        }
+        let ca: C = mk(v);
+        let a = arr(&ca);
+        let r = arr(&ca.clone().clamp());
+        let mut x = ca.clone();
+        x.clamp_assign();
+        w.m.evals(4);
+        let inp = || json!({"color": fvec(&a)});
+        if !same(&arr(&x), &r) {
+            w.bad("clamp_assign_differs_from_clamp", inp(), fvec(&arr(&x)), fvec(&r));
+        }
+        for len in [1usize, 5] {
+            let mut sl: Vec<C> = (0..len).map(|_| ca.clone()).collect();
+            sl[..].clamp_assign();
+            if !sl.iter().all(|c| same(&arr(c), &r)) {
+                w.bad("clamp_slice_form_differs", inp(), json!({"len": len, "first": fvec(&arr(&sl[0]))}), fvec(&r));
+            }
+        }
+        for al in [-0.5, 0.625, 1.75] {
+            let wa = Alpha { color: ca.clone(), alpha: T::f(al) };
+            let wr = wa.clone().clamp();
+            let mut wx = wa.clone();
+            wx.clamp_assign();
+            let want_alpha = T::f(al.max(0.0).min(1.0)).d();
+            if !same(&arr(&wr.color), &r) || !same(&arr(&wx.color), &r) || wr.alpha.d() != want_alpha || wx.alpha.d() != want_alpha {
+                w.bad("clamp_alpha_form_differs", json!({"color": fvec(&a), "alpha": al}), json!({"by_value": fvec(&arr(&wr.color)), "assign": fvec(&arr(&wx.color)), "alpha_by_value": wr.alpha.d(), "alpha_assign": wx.alpha.d()}), json!({"color": fvec(&r), "alpha": want_alpha}));
+            }
+        }
+        if q < 125 {
+            w.m.cell(pvmon::rng::mix(pvmon::rng::hash_str(&w.inst), q ^ pvmon::rng::hash_str("clamp")));
+        }
+    }
+}
+
 macro_rules! desc {
     ($name:expr, $r:expr, $hue:expr, $light:expr, $sat:expr) => {
         Desc { name: $name, ranges: $r, hue: $hue, light: $light, sat: $sat, hwb: false }
@@ -514,7 +576,9 @@ fn main() {
     let luv = desc!("Luv", [(0.0, 100.0), (-84.0, 176.0), (-135.0, 108.0)], None, &[(0, 0.0, 100.0)], &[]);
     let lchuv = desc!("Lchuv", [(0.0, 100.0), (0.0, 180.0), HUE], Some(2), &[(0, 0.0, 100.0)], &[(1, 0.0, 180.0)]);
     let hsluv = desc!("Hsluv", [HUE, (0.0, 100.0), (0.0, 100.0)], Some(0), &[(2, 0.0, 100.0)], &[(1, 0.0, 100.0)]);
-    let xyz = desc!("Xyz", [(0.0, 0.95047), (0.0, 1.0), (0.0, 1.08883)], None, &[], &[]);
+    let xyz = desc!("Xyz", [(0.0, 0.95047), (0.0, 1.0), (0.0, 1.08883)], None, &[(0, 0.0, 0.95047), (1, 0.0, 1.0), (2, 0.0, 1.08883)], &[]);
+    let xyz50 = desc!("Xyz<D50>", [(0.0, 0.96422), (0.0, 1.0), (0.0, 0.82521)], None, &[(0, 0.0, 0.96422), (1, 0.0, 1.0), (2, 0.0, 0.82521)], &[]);
+    let lms = desc!("Lms<VonKries,D65>", [U, U, U], None, &[], &[]);
     let yxy = desc!("Yxy", [U, U, U], None, &[(2, 0.0, 1.0)], &[]);
     let oklab = desc!("Oklab", [U, (-0.4, 0.4), (-0.4, 0.4)], None, &[(0, 0.0, 1.0)], &[]);
     let oklch = desc!("Oklch", [U, (0.0, 0.4), HUE], Some(2), &[(0, 0.0, 1.0)], &[]);
@@ -522,14 +586,15 @@ fn main() {
     let okhsv = desc!("Okhsv", [HUE, U, U], Some(0), &[(2, 0.0, 1.0)], &[(1, 0.0, 1.0)]);
     let okhwb = Desc { name: "Okhwb", ranges: [HUE, U, U], hue: Some(0), light: &[(1, 0.0, 1.0), (2, 0.0, 1.0)], sat: &[], hwb: true };
     let jab = desc!("Cam16UcsJab", [(0.0, 100.0), (-50.0, 50.0), (-50.0, 50.0)], None, &[(0, 0.0, 100.0)], &[]);
-    let jmh = desc!("Cam16UcsJmh", [(0.0, 100.0), (0.0, 50.0), HUE], Some(2), &[(0, 0.0, 100.0)], &[]);
+    let jmh = desc!("Cam16UcsJmh", [(0.0, 100.0), (0.0, 50.0), HUE], Some(2), &[(0, 0.0, 100.0)], &[(1, 0.0, 50.0)]);
 
     let mut mm = Monitor::new("mix", "Mix / MixAssign on bare and Alpha-wrapped colours of every colour type and on PreAlpha<LinSrgb> (f32/f64): factor 0 and 1 give the ends, factors outside [0,1] equal the nearest end bit for bit, each component stays between the inputs and equals the lerp, hues travel the shorter arc by the factor's fraction; assigning and Alpha forms bit-identical to the by-value form; distinct = (type, case)");
     let mut ml = Monitor::new("lighten_darken", "Lighten / Darken (relative and fixed; by value, assigning, slices of length 0/1/7, Alpha-wrapped) for every type that offers them: value equals the documented formula, stays in range, leaves other components bit-identical, factor 1 reaches the limit, monotone over a 33-step factor ladder, darken(x) == lighten(-x) and all variants bit-identical; distinct = (type, case)");
     let mut ms = Monitor::new("saturate_desaturate", "Saturate / Desaturate with the same checks as lighten on the saturation-like component; distinct = (type, case)");
     let mut mh = Monitor::new("hue_ops_and_schemes", "ShiftHue(Assign), WithHue, SetHue, GetHue on bare, Alpha-wrapped and slice forms; complementary, split complementary, analogous (both), triadic and tetradic equal the documented hue shifts; other components bit-identical; distinct = (type, case)");
     let mut ma = Monitor::new("component_arithmetic", "Add / Sub / Mul / Div with colours and scalars, their assigning forms and Alpha-wrapped forms against plain component arithmetic in the same float type, bit for bit; distinct = (type, case)");
-    for m in [&mut mm, &mut ml, &mut ms, &mut mh, &mut ma] {
+    let mut mc = Monitor::new("clamp_variants", "Clamp / ClampAssign on bare colours, slices and Alpha-wrapped colours of every colour type (f32/f64), inputs with each component independently far below, just below, inside, just above and far above its range (all 125 class patterns, then seeded): the assigning, slice and Alpha forms give bit for bit the colour of the by-value form, the alpha is clamped to [0, 1]; distinct = (type, class pattern)");
+    for m in [&mut mm, &mut ml, &mut ms, &mut mh, &mut ma, &mut mc] {
         m.tolerance = Some("variant agreement bit-exact; semantic formulas 8 ulp of the component scale".into());
     }
     let only = |n: &str| ctx.enabled(n) && !ctx.replaying();
@@ -546,6 +611,9 @@ fn main() {
     macro_rules! sats {
         ($T:ty, $($C:ty => $d:expr),+) => { $( saturate_suite::<$T, $C>(&mut ms, &ctx, &$d); )+ };
     }
+    macro_rules! clamps {
+        ($T:ty, $($C:ty => $d:expr),+) => { $( clamp_suite::<$T, $C>(&mut mc, &ctx, &$d); )+ };
+    }
     macro_rules! ariths {
         ($T:ty, $($C:ty => $d:expr),+) => { $( arith_suite::<$T, $C>(&mut ma, &ctx, &$d); )+ };
     }
@@ -558,18 +626,26 @@ fn main() {
     macro_rules! all_mix {
         ($T:ty, ) => {
             mixes!($T, rgb::Rgb<St, $T> => rgb, rgb::Rgb<Lin, $T> => lin, Hsl<St, $T> => hsl, Hsv<St, $T> => hsv, Hwb<St, $T> => hwb, Lab<Wp, $T> => lab, Lch<Wp, $T> => lch, Luv<Wp, $T> => luv, Lchuv<Wp, $T> => lchuv, Hsluv<Wp, $T> => hsluv,
-                Xyz<Wp, $T> => xyz, Yxy<Wp, $T> => yxy, Oklab<$T> => oklab, Oklch<$T> => oklch, Okhsl<$T> => okhsl, Okhsv<$T> => okhsv, Okhwb<$T> => okhwb, cam16::Cam16UcsJab<$T> => jab, cam16::Cam16UcsJmh<$T> => jmh);
+                Xyz<Wp, $T> => xyz, Yxy<Wp, $T> => yxy, Oklab<$T> => oklab, Oklch<$T> => oklch, Okhsl<$T> => okhsl, Okhsv<$T> => okhsv, Okhwb<$T> => okhwb, cam16::Cam16UcsJab<$T> => jab, cam16::Cam16UcsJmh<$T> => jmh, palette::lms::VonKriesLms<Wp, $T> => lms);
         };
     }
     macro_rules! all_light {
         ($T:ty, ) => {
             lights!($T, rgb::Rgb<St, $T> => rgb, rgb::Rgb<Lin, $T> => lin, Hsl<St, $T> => hsl, Hsv<St, $T> => hsv, Hwb<St, $T> => hwb, Lab<Wp, $T> => lab, Lch<Wp, $T> => lch, Luv<Wp, $T> => luv, Lchuv<Wp, $T> => lchuv, Hsluv<Wp, $T> => hsluv,
-                Yxy<Wp, $T> => yxy, Oklab<$T> => oklab, Oklch<$T> => oklch, Okhsl<$T> => okhsl, Okhsv<$T> => okhsv, Okhwb<$T> => okhwb, cam16::Cam16UcsJab<$T> => jab, cam16::Cam16UcsJmh<$T> => jmh);
+                Yxy<Wp, $T> => yxy, Oklab<$T> => oklab, Oklch<$T> => oklch, Okhsl<$T> => okhsl, Okhsv<$T> => okhsv, Okhwb<$T> => okhwb, cam16::Cam16UcsJab<$T> => jab, cam16::Cam16UcsJmh<$T> => jmh,
+                Xyz<Wp, $T> => xyz, Xyz<palette::white_point::D50, $T> => xyz50);
+        };
+    }
+    macro_rules! all_clamp {
+        ($T:ty, ) => {
+            clamps!($T, rgb::Rgb<St, $T> => rgb, rgb::Rgb<Lin, $T> => lin, Hsl<St, $T> => hsl, Hsv<St, $T> => hsv, Hwb<St, $T> => hwb, Lab<Wp, $T> => lab, Lch<Wp, $T> => lch, Luv<Wp, $T> => luv, Lchuv<Wp, $T> => lchuv, Hsluv<Wp, $T> => hsluv,
+                Xyz<Wp, $T> => xyz, Xyz<palette::white_point::D50, $T> => xyz50, Yxy<Wp, $T> => yxy, Oklab<$T> => oklab, Oklch<$T> => oklch, Okhsl<$T> => okhsl, Okhsv<$T> => okhsv, Okhwb<$T> => okhwb, cam16::Cam16UcsJab<$T> => jab, cam16::Cam16UcsJmh<$T> => jmh,
+                palette::lms::VonKriesLms<Wp, $T> => lms);
         };
     }
     macro_rules! all_sat {
         ($T:ty, ) => {
-            sats!($T, Hsl<St, $T> => hsl, Hsv<St, $T> => hsv, Lch<Wp, $T> => lch, Lchuv<Wp, $T> => lchuv, Hsluv<Wp, $T> => hsluv, Okhsl<$T> => okhsl, Okhsv<$T> => okhsv);
+            sats!($T, Hsl<St, $T> => hsl, Hsv<St, $T> => hsv, Lch<Wp, $T> => lch, Lchuv<Wp, $T> => lchuv, Hsluv<Wp, $T> => hsluv, Okhsl<$T> => okhsl, Okhsv<$T> => okhsv, cam16::Cam16UcsJmh<$T> => jmh);
         };
     }
     macro_rules! all_hue {
@@ -642,12 +718,16 @@ fn main() {
     if only("component_arithmetic") {
         for_floats!(all_arith,);
     }
+    if only("clamp_variants") {
+        for_floats!(all_clamp,);
+    }
     mm.sample(|| json!({"type": "Hsl<Srgb,f64>", "a": [350.0, 0.5, 0.5], "b": [10.0, 0.5, 0.5], "factor": 0.5, "mixed": fvec(&arr(&Hsl::<St, f64>::new(350.0, 0.5, 0.5).mix(Hsl::new(10.0, 0.5, 0.5), 0.5)))}));
     ml.sample(|| json!({"type": "Hsl<Srgb,f64>", "color": [120.0, 0.5, 0.4], "lighten(0.5)": fvec(&arr(&Hsl::<St, f64>::new(120.0, 0.5, 0.4).lighten(0.5))), "darken_fixed(0.1)": fvec(&arr(&Hsl::<St, f64>::new(120.0, 0.5, 0.4).darken_fixed(0.1)))}));
     ms.sample(|| json!({"type": "Hsv<Srgb,f64>", "color": [120.0, 0.5, 0.4], "saturate(0.5)": fvec(&arr(&Hsv::<St, f64>::new(120.0, 0.5, 0.4).saturate(0.5)))}));
     mh.sample(|| json!({"type": "Lch<D65,f64>", "color": [50.0, 30.0, 300.0], "tetradic_first": fvec(&arr(&Lch::<Wp, f64>::new(50.0, 30.0, 300.0).tetradic().0))}));
     ma.sample(|| json!({"type": "Lab<D65,f32>", "a+b": fvec(&arr(&(Lab::<Wp, f32>::new(50.0, 1.0, 2.0) + Lab::new(1.0, 2.0, 3.0))))}));
-    for m in [mm, ml, ms, mh, ma] {
+    mc.sample(|| json!({"type": "Hwb<Srgb,f64>", "color": [10.0, -0.5, 1.25], "clamp": fvec(&arr(&Hwb::<St, f64>::new(10.0, -0.5, 1.25).clamp())), "clamp_assign": fvec(&arr(&{ let mut c = Hwb::<St, f64>::new(10.0, -0.5, 1.25); c.clamp_assign(); c }))}));
+    for m in [mm, ml, ms, mh, ma, mc] {
         if ctx.enabled(&m.name) {
             report.add(m);
         }
